@@ -60,6 +60,14 @@ structure PoolTx where
   amount : Nat
   deriving DecidableEq, Repr
 
+/-- `sdk.Dec` precision: delegation shares are fixed-point numbers with 18 decimals -/
+def shareScale : Nat := 1000000000000000000
+
+/-- Round 4: the world knows the validator's exchange rate (`vTok` bonded tokens for `vShr` delegator shares, the latter
+in 10^-18 units as `sdk.Dec` stores them), so that `delegate` / `undelegate` / `redelegate` are modelled on a SLASHED
+validator too (one share worth less than one token).  A delegation is `shares a` whole shares plus `dust a` 10^-18 units
+(`dust a < shareScale`; always 0 on a never-slashed validator): the share-denominated methods (`approveShares`,
+`transferShares`, `transferFromShares`) take whole shares and never touch the dust or the rate. -/
 structure World where
   bal : Addr → Nat
   shares : Addr → Nat
@@ -68,6 +76,9 @@ structure World where
   allow : Addr → Addr → Nat
   pool : List PoolTx
   nextId : Nat
+  dust : Addr → Nat
+  vTok : Nat
+  vShr : Nat
 
 def upd (f : Addr → Nat) (k : Addr) (v : Nat) : Addr → Nat := fun a => if a = k then v else f a
 def upd2 (f : Addr → Addr → Nat) (k1 k2 : Addr) (v : Nat) : Addr → Addr → Nat :=
@@ -114,6 +125,30 @@ structure Env where
 inductive Err | unknownMethod | writeProtection | disabled | method | allowance | shares | unknownStep | value
   deriving DecidableEq, Repr
 
+/-- a delegation in 10^-18 units -/
+def World.raw (w : World) (a : Addr) : Nat := w.shares a * shareScale + w.dust a
+
+/-- `Validator.SharesFromTokens` (= `…Truncated`): `DelegatorShares.MulInt(amt).QuoInt(Tokens)`, integer division on the
+10^-18 representation; a validator without shares issues them 1 : 1 -/
+def World.sharesFor (w : World) (amt : Nat) : Nat :=
+  if w.vShr = 0 then amt * shareScale else w.vShr * amt / w.vTok
+
+/-- `chopPrecisionAndRound` of `cosmossdk.io/math`: drop 18 decimals with banker's rounding (half to even) -/
+def chopRound (q : Nat) : Nat :=
+  let d := q / shareScale
+  let rem := q % shareScale
+  if rem * 2 < shareScale then d else if shareScale < rem * 2 then d + 1 else (if d % 2 = 0 then d else d + 1)
+
+/-- `Validator.RemoveDelShares`: the last shares take every token; otherwise `TokensFromShares(r).TruncateInt()` where
+`TokensFromShares = shares.MulInt(Tokens).Quo(DelegatorShares)` — `LegacyDec.Quo` multiplies by 10^36, divides (truncating),
+and chops 18 decimals with BANKER'S ROUNDING before the integer part is taken: a worth within 5·10^-19 below a whole
+token is paid out as that whole token -/
+def World.tokensFor (w : World) (r : Nat) : Nat :=
+  if w.vShr - r = 0 then w.vTok else chopRound (r * w.vTok * shareScale * shareScale / w.vShr) / shareScale
+
+def World.setRaw (w : World) (a : Addr) (raw : Nat) : World :=
+  { w with shares := upd w.shares a (raw / shareScale), dust := upd w.dust a (raw % shareScale) }
+
 /-- `handlerTransferShares`: the delegation of `p` must cover `s`; a transfer to oneself changes nothing (it returns
 before the reward withdrawals); otherwise both sides' rewards are paid out and `s` shares move -/
 def moveShares (w : World) (p to : Addr) (s : Nat) : Except Err World :=
@@ -127,14 +162,32 @@ def effect (i : MInfo) (p c : Addr) (call : Call) (w : World) : Except Err World
   match call with
   | .delegate amt =>
     if w.bal p + w.rewards p < amt then .error .method else
+    if w.vTok = 0 ∧ w.vShr ≠ 0 then .error .method else     -- a validator with shares and no tokens cannot be delegated to
     let w1 := claim w p
-    .ok { w1 with bal := upd w1.bal p (w1.bal p - amt), shares := upd w1.shares p (w1.shares p + amt) }
+    let r := w1.sharesFor amt
+    let w2 := { w1 with bal := upd w1.bal p (w1.bal p - amt), vTok := w1.vTok + amt, vShr := w1.vShr + r }
+    .ok (w2.setRaw p (w1.raw p + r))
   | .undelegate amt =>
-    if w.shares p < amt then .error .method else
+    -- `ValidateUnbondAmount`: tokens → shares at the validator's rate, refused beyond the delegation; `Unbond` +
+    -- `RemoveDelShares`: the shares leave delegation and validator, their (truncated) token worth becomes an unbonding entry
+    if w.vTok = 0 ∨ w.raw p < w.sharesFor amt then .error .method else
     let w1 := claim w p
-    .ok { w1 with shares := upd w1.shares p (w1.shares p - amt), unbonding := upd w1.unbonding p (w1.unbonding p + amt) }
-  | .redelegate amt => if w.shares p < amt then .error .method else .ok (claim w p)
-  | .withdraw => if w.shares p = 0 then .error .method else .ok (claim w p)   -- no delegation: nothing to withdraw
+    let r := w1.sharesFor amt
+    let out := w1.tokensFor r
+    let w2 := { w1 with unbonding := upd w1.unbonding p (w1.unbonding p + out), vTok := w1.vTok - out, vShr := w1.vShr - r }
+    .ok (w2.setRaw p (w1.raw p - r))
+  | .redelegate amt =>
+    -- the shares leave the (one) validator of the world and reappear on the destination validator, which the world does
+    -- not contain; rewards of the source delegation are paid out (BeforeDelegationSharesModified)
+    if w.vTok = 0 ∨ w.raw p < w.sharesFor amt then .error .method else
+    -- `BeginRedelegation`: shares worth less than one base unit are refused (ErrTinyRedelegationAmount)
+    if (claim w p).tokensFor ((claim w p).sharesFor amt) = 0 then .error .method else
+    let w1 := claim w p
+    let r := w1.sharesFor amt
+    let out := w1.tokensFor r
+    let w2 := { w1 with vTok := w1.vTok - out, vShr := w1.vShr - r }
+    .ok (w2.setRaw p (w1.raw p - r))
+  | .withdraw => if w.raw p = 0 then .error .method else .ok (claim w p)   -- no delegation (not even a fraction of a share): nothing to withdraw
   | .approve sp s => .ok { w with allow := upd2 w.allow p sp s }
   | .transferShares to s => moveShares w p to s
   | .transferFromShares _ to s =>
